@@ -222,15 +222,22 @@ Fixpoint prove_each (m : miner) (l : list (N * Z)) (dep pl : Z) : res (miner * Z
   | (s, p) :: r =>
       if p <? 0 then Err BAD_INPUT else
       match precommits m !! s with
-      | None => Err NOT_FOUND
+      | None => Err ILLEGAL_STATE     (* delete_precommitted_sectors: "sector not pre-committed" -- the
+                                         sector was named twice in the batch (existence was checked before) *)
       | Some d =>
           if has (sectors m) s || has (awaiting m) s then Err ILLEGAL_STATE else
           prove_each (set_sectors (set_precommits m (delete s (precommits m))) (<[s := p]> (sectors m)))
                      r (dep + d) (pl + p)
       end
   end.
+(* get_precommitted_sectors: every named sector must be pre-committed (not_found otherwise); a sector named
+   twice passes this check, is activated once per entry, and makes delete_precommitted_sectors fail on its
+   second entry: the whole message aborts *)
+Definition all_precommitted (m : miner) (secs : list (N * Z)) : bool :=
+  forallb (fun x : N * Z => has (precommits m) (fst x)) secs.
 Definition tx_prove_commit (m : miner) (secs : list (N * Z)) : res (miner * Z) :=
   match secs with [] => Err ILLEGAL_ARGUMENT | _ =>
+  if negb (all_precommitted m secs) then Err NOT_FOUND else
   bind (prove_each m secs 0 0) (fun '(m1, dep, pl) =>
   bind (add_pcd m1 (- dep)) (fun m2 =>
   bind (add_ip m2 pl) (fun m3 => Ok (m3, pl))))
